@@ -72,6 +72,8 @@ def carrier_cases(rep):
                 fl.append(("idx.const.label-offset", "[V-1,S]", {"mode": "idx", "kind": "off", "reg": "S", "off": "V-1", "ind": True}))
                 fl.append(("idx.const.label-offset", "2+V,U", {"mode": "idx", "kind": "off", "reg": "U", "off": "V+2", "ind": False}))
             for form, opnd, exp in fl:
+                if order == "label-before" and v == 0 and "V-1" in opnd:
+                    continue          # label-1 below address 0: outside 0..65535, may be rejected or wrapped (C04) - not C01's business
                 if order == "label-before":
                     lines = [" ORG $%X\n" % v, "V NOP\n", " %s %s\n" % (rep, opnd)] + asmjudge.TAIL
                     target = 2
